@@ -167,6 +167,31 @@ def equiWeights (n : Nat) (a b : List α) : List α :=
 def equiNodes (a b : List α) (T : List (List α)) : List (List α) :=
   T.map fun t => (List.range a.length).map fun k => a.getD k 0 + t.getD k 0 * (b.getD k 0 - a.getD k 0)
 
+/-! ### _make_multidim_func: argument handling -/
+
+/-- what `_make_multidim_func(one_d_func, n, *args)` does with its arguments: either the 1-d shortcut
+    `one_d_func(n[0], *args)` (all of `n` and the `args` have size 1), or one call
+    `one_d_func(n[i], *[x[i] for x in args])` per dimension after repeating the size-1 `args` `d = n.size`
+    times, or an error: `IndexError` (an argument shorter than `d`, or `gridmake` of fewer than two
+    arrays), `TypeError` (`ckron()` of nothing when `n` is empty). -/
+inductive MDPlan (α : Type) where
+  | oneD (n : Nat) (params : List α)
+  | multi (calls : List (Nat × List α))
+  | indexError
+  | typeError
+deriving Repr, DecidableEq
+
+def multidimPlan (ns : List Nat) (args : List (List α)) : MDPlan α :=
+  if ns.length = 1 ∧ args.all (fun x => x.length = 1) then
+    MDPlan.oneD (ns.getD 0 0) (args.map fun x => x.getD 0 0)
+  else
+    let d := ns.length
+    let args' := args.map fun x => if x.length = 1 then List.replicate d (x.getD 0 0) else x
+    if args'.any (fun x => x.length < d) then MDPlan.indexError      -- x[i] out of range inside the loop
+    else if d = 0 then MDPlan.typeError                              -- ckron() of no arrays
+    else if d = 1 then MDPlan.indexError                             -- gridmake of one array
+    else MDPlan.multi ((List.range d).map fun i => (ns.getD i 0, args'.map fun x => x.getD i 0))
+
 /-! ### qnwnorm: affine image of the standard nodes -/
 
 /-- column `j` of a matrix given by rows -/
@@ -518,6 +543,15 @@ def handle (toks : List String) : String :=
     match kvNat r "n", kvFloats r "a", kvFloats r "b" with
     | some n, some a, some b => showList showFloatBits (equiWeights n a b)
     | _, _, _ => "bad-op"
+  | "mdplan" :: r =>
+    match kvNats r "n", kvRatMat r "args" with
+    | some ns, some args =>
+      match multidimPlan ns args with
+      | MDPlan.oneD n ps => "1d " ++ toString n ++ ":" ++ showList showRat ps
+      | MDPlan.multi calls => "multi " ++ ";".intercalate (calls.map fun c => toString c.1 ++ ":" ++ showList showRat c.2)
+      | MDPlan.indexError => "ERR:IndexError"
+      | MDPlan.typeError => "ERR:TypeError"
+    | _, _ => "bad-op"
   | "equinodes" :: r =>
     match kvFloats r "a", kvFloats r "b", kvFloatMat r "T" with
     | some a, some b, some T => showMat showFloatBits (equiNodes a b T)
